@@ -18,6 +18,16 @@ pub fn run_keep(case: &Case) -> Driver {
     d
 }
 
+/// As `run_keep`, but a divergence from the reference model does not stop the run (the oracle
+/// that uses these runs compares executions with each other, not with the model).
+pub fn run_keep_lenient(case: &Case) -> Driver {
+    let mut d = Driver::new(case);
+    d.keep_obs = true;
+    d.lenient = true;
+    d.run_all(&case.ops);
+    d
+}
+
 fn strip_policy_changes(ops: &[Op]) -> Vec<Op> {
     ops.iter().map(|o| if let Op::Restart { .. } = o { Op::Restart { policy: None } } else { o.clone() }).collect()
 }
@@ -220,12 +230,9 @@ pub struct C18Result {
 
 pub fn c18(case: &Case, q: usize, crash: &Option<CrashPoint>) -> C18Result {
     let mut res = C18Result { failures: Vec::new(), observations: 0, other_queue_gc_between: false };
-    let full = run_keep(case);
-    if !full.conformance_ok() {
-        return res;
-    }
+    let full = run_keep_lenient(case);
     let (pc, map) = project(case, q);
-    let proj = run_keep(&pc);
+    let proj = run_keep_lenient(&pc);
     let name = full.names[q].clone();
     if proj.steps.len() != pc.ops.len() && proj.failures.is_empty() {
         return res;
@@ -296,4 +303,104 @@ pub fn evaluate_meta(prop: &str, case: &Case, fault: &Fault) -> Vec<Failure> {
         _ => Vec::new(),
     };
     failures.into_iter().filter(|f| f.prop == prop).collect()
+}
+
+// ------------------------------------------------------------------ C17: foreign entries must not matter; gaps allowed
+
+/// The same history with and without the foreign directory entries must behave identically.
+pub fn c17_differential(case: &Case) -> Vec<Failure> {
+    let mut out = Vec::new();
+    if case.foreign.is_empty() {
+        return out;
+    }
+    let with = run_keep(case);
+    let mut plain = case.clone();
+    plain.foreign.clear();
+    let without = run_keep(&plain);
+    if !without.conformance_ok() {
+        return out; // the history itself misbehaves: not a statement about foreign entries
+    }
+    for i in 0..without.steps.len() {
+        let Some(sw) = with.steps.get(i) else {
+            out.push(fail("C17", "foreign-entry-changed-behaviour", i, format!("with foreign directory entries present the history stopped at op {} ({:?})", i, with.failures.first().map(|f| f.detail.clone()))));
+            return out;
+        };
+        let so = &without.steps[i];
+        if sw.outcome != so.outcome {
+            out.push(fail("C17", "foreign-entry-changed-behaviour", i, format!("op {} {} returned {:?} with foreign directory entries present and {:?} without them", i, so.op.short(), sw.outcome, so.outcome)));
+            return out;
+        }
+        if with.obs_log.get(i) != without.obs_log.get(i) {
+            out.push(fail("C17", "foreign-entry-changed-behaviour", i, format!("state after op {} {} differs when foreign directory entries are present", i, so.op.short())));
+            return out;
+        }
+    }
+    out
+}
+
+/// Renumbers the WAL files of the cleanly dropped image with an order-preserving map with gaps;
+/// the log must open to the same state, and new files must continue from the highest number.
+pub fn c17_gaps(case: &Case, seed: u64) -> (Vec<Failure>, bool) {
+    use crate::simfs::{wal_name, wal_number, Image};
+    let mut out = Vec::new();
+    let mut d = run_keep(case);
+    if !d.conformance_ok() {
+        return (out, false);
+    }
+    d.world.close();
+    let image = d.world.image();
+    let mut rng = crate::prng::Rng::new(seed);
+    let mut numbers: Vec<u64> = image.iter().filter(|(_, node)| matches!(node, crate::simfs::Node::File(_))).filter_map(|(n, _)| wal_number(n)).collect();
+    numbers.sort();
+    if numbers.is_empty() {
+        return (out, false);
+    }
+    let mut next = 1 + rng.below(1 << 20);
+    let mut map = std::collections::BTreeMap::new();
+    for n in &numbers {
+        map.insert(*n, next);
+        next += 1 + if rng.chance(1, 2) { rng.below(1 << 40) } else { rng.below(3) };
+    }
+    let mut renamed = Image::new();
+    for (name, node) in &image {
+        match wal_number(name) {
+            Some(n) if matches!(node, crate::simfs::Node::File(_)) => {
+                renamed.insert(wal_name(map[&n]), node.clone());
+            }
+            _ => {
+                renamed.insert(name.clone(), node.clone());
+            }
+        }
+    }
+    let highest = *map.values().max().unwrap();
+    let idx = case.ops.len();
+    match recover(&renamed, &d.names, d.world.policy, &case.knobs) {
+        Err((e, _)) => out.push(fail("C17", "gaps-open-failed", idx, format!("WAL files renumbered {:?} -> {:?} (order preserved): {}", numbers, map.values().collect::<Vec<_>>(), crate::crash::open_fail_text(&e)))),
+        Ok((w, obs)) => {
+            let want = d.model.to_obs();
+            if obs != want {
+                out.push(fail("C17", "gaps-state-differs", idx, format!("WAL files renumbered {:?} -> {:?} (order preserved): {}", numbers, map.values().collect::<Vec<_>>(), obs.diff(&want))));
+                return (out, true);
+            }
+            // continue: force a roll-over; the new file must be numbered highest + 1
+            let mut cd = Driver::adopt(w, d.model.clone(), case.probe_seed ^ seed);
+            cd.light = true;
+            let existing: Vec<usize> = (0..cd.names.len()).filter(|&q| cd.model.queues.contains_key(&cd.names[q])).collect();
+            if let Some(&q) = existing.first() {
+                cd.step(Op::Append { q, pos: None, lens: vec![100_000, 50_000], uid: 3_000_001 });
+                cd.step(Op::Restart { policy: None });
+                if let Some(f) = cd.failures.iter().find(|f| f.prop == "C05" || f.prop == "C01") {
+                    out.push(fail("C17", "gaps-continuation-diverged", idx, format!("after opening renumbered WAL files: {}", f.detail)));
+                }
+                let listing: Vec<u64> = cd.world.fs.borrow().st.wal_names().iter().filter_map(|n| wal_number(n)).collect();
+                // files created by the continuation: numbered highest+1, highest+2, ... (those still on disk are a consecutive run)
+                let new_files: Vec<u64> = listing.iter().copied().filter(|n| !map.values().any(|m| m == n)).collect();
+                let ok = new_files.iter().all(|n| *n > highest) && new_files.windows(2).all(|w| w[1] == w[0] + 1) && new_files.last().map(|l| *l <= highest + 16).unwrap_or(true);
+                if !ok {
+                    out.push(fail("C17", "gaps-new-file-number", idx, format!("highest existing WAL number was {highest}, files created afterwards are numbered {:?}", new_files)));
+                }
+            }
+        }
+    }
+    (out, true)
 }
